@@ -12,7 +12,7 @@ import json
 import numpy as np
 from .. import core, iso
 
-KINDS = ('otsu', 'fact', 'znl', 'pairscan', 'disk2d', 'domangle')
+KINDS = ('otsu', 'fact', 'znl', 'pairscan', 'disk2d', 'domangle', 'poles', 'splcoef')
 REAL_KIND = 'featreal'
 FACT_LEN = 13
 
@@ -143,7 +143,33 @@ def py_domangle(ns, btw):
     return acc, True, dict(early='0', jend=str(j))
 
 
+def py_poles(order):
+    """init_poles: switch (order) { case 2/3: npoles = 1; pole[0] = …; case 4/5: npoles = 2; pole[0] = …; pole[1] = …; default: throw }
+    then for (pi = 0; pi < npoles; ++pi) … pole[pi] …"""
+    if order in (2, 3):
+        npoles = 1
+    elif order in (4, 5):
+        npoles = 2
+    else:
+        return [], True, dict(thrown='1')
+    acc = [(i, 2) for i in range(npoles)] + [(pi, 2) for pi in range(npoles)]
+    return acc, True, dict(thrown='0')
+
+
+def py_splcoef(order):
+    acc = []
+    hh = 0
+    while hh <= order:
+        acc.append((hh, order + 1))
+        hh += 1
+    return acc, True, {}
+
+
 def line_for(w, q):
+    if w == 'poles':
+        return f"c10 kind=poles order={q['order']}"
+    if w == 'splcoef':
+        return f"c10 kind=splcoef order={q['order']}"
     if w == 'otsu':
         return f"c10 kind=otsu n={q['n']} hz={q['hz']} nbz={_csv(q['nbz'])} noz={_csv(q['noz'])} better={_csv(q['better'])}"
     if w == 'fact':
@@ -161,6 +187,10 @@ def line_for(w, q):
 
 def line_and_direct(w, q):
     line = line_for(w, q)
+    if w == 'poles':
+        return (line,) + py_poles(q['order'])
+    if w == 'splcoef':
+        return (line,) + py_splcoef(q['order'])
     if w == 'otsu':
         return (line,) + py_otsu(q['n'], q['hz'], q['nbz'], q['noz'], q['better'])
     if w == 'fact':
@@ -209,6 +239,8 @@ def model_cases(rng, n):
             q = dict(na=na, nb=na, stop=rng.choice([None, None, R(0, 25)]))
             if rng.random() < 0.2:
                 q['nb'] = R(0, 25); dom = q['nb'] >= na
+        elif w in ('poles', 'splcoef'):
+            q = dict(order=rng.choice([0, 1, 2, 3, 4, 5, 6, -1, R(-3, 9)]))
         elif w == 'disk2d':
             q = dict(n0=R(0, 9), n1=R(0, 9), radius=rng.choice([0, 1, 2, 3, 5, 46341, 65536, R(0, 12)]))
         else:
